@@ -178,12 +178,13 @@ func shardName(s uint32) string {
 func main() {
 	_ = logger.SetLogLevel("*:NONE")
 	r := vk.Start("C46")
-	r.Rule("each case: self shard in {0,1,META}; 3..6 miniblock templates over a pool of 6..12 tx hashes (templates may share transactions), every template from or to the self shard; 12..45 operations: RecordBlock of a fresh header (competing height or next height, current epoch, body of 1..3 templates sharing no transaction, biased to already recorded ones) or, 1 in 4, of a block of the current epoch that was recorded before (A,B,A; A,B,C,A; A,A), OnNotarizedBlocks with 1..2 meta blocks notarizing templates at source/destination/both (a fixed meta block per template and side, possibly delivered again), empty OnNotarizedBlocks, epoch +1 (rarely -1 = rollback over the boundary). After every operation every transaction seen so far is looked up. One evaluation = one lookup compared with the model. A template history is non-trivial when the miniblock was recorded at least twice or notarized; distinct = distinct (self kind, storer kind, direction, event sequence). Concurrent cases (a fixed number appended after the sequential ones): 3..8 miniblocks with disjoint transactions, most of them cross-shard; about 3 in 4 are recorded first (some twice, some across an epoch change), then 2..4 goroutines make 1..3 OnNotarizedBlocks calls each, with 1..2 meta blocks per call; the source listing and the destination listing of a cross-shard miniblock sit in different meta blocks, 3 times in 4 delivered by different goroutines; a meta block may be delivered by two goroutines; the miniblock-metadata storer is decorated so that reads and writes yield or sleep 20..420 microseconds at random; after all notifiers returned: one empty call, lookup of every transaction (block fields, each notified side reported with its coordinates, each side not notified empty), then the remaining miniblocks are recorded, one empty call, and the lookups are repeated. A concurrent case is non-trivial when at least one miniblock had its two listings on different goroutines and at least two calls were in flight together.")
+	r.Rule("each case: self shard in {0,1,META}; 3..6 miniblock templates over a pool of 6..12 tx hashes (templates may share transactions), every template from or to the self shard; 12..45 operations: RecordBlock of a fresh header (competing height or next height, current epoch, body of 1..3 templates sharing no transaction, biased to already recorded ones) or, 1 in 4, of a block of the current epoch that was recorded before (A,B,A; A,B,C,A; A,A), OnNotarizedBlocks with 1..2 meta blocks notarizing templates at source/destination/both (a fixed meta block per template and side, possibly delivered again), empty OnNotarizedBlocks, epoch +1 (rarely -1 = rollback over the boundary). After every operation every transaction seen so far is looked up. One evaluation = one lookup compared with the model. A template history is non-trivial when the miniblock was recorded at least twice or notarized; distinct = distinct (self kind, storer kind, direction, event sequence). Concurrent cases (a fixed number appended after the sequential ones): 3..8 miniblocks with disjoint transactions, most of them cross-shard; about 3 in 4 are recorded first (some twice, some across an epoch change), then 2..4 goroutines make 1..3 OnNotarizedBlocks calls each, with 1..2 meta blocks per call; the source listing and the destination listing of a cross-shard miniblock sit in different meta blocks, 3 times in 4 delivered by different goroutines; a meta block may be delivered by two goroutines; the miniblock-metadata storer is decorated so that reads and writes yield or sleep 20..420 microseconds at random; after all notifiers returned: one empty call, lookup of every transaction (block fields, each notified side reported with its coordinates, each side not notified empty), then the remaining miniblocks are recorded, one empty call, and the lookups are repeated. A concurrent case is non-trivial when at least one miniblock had its two listings on different goroutines and at least two calls were in flight together. Recorder-racing-notifiers cases (a fixed number appended last): same miniblocks, records and meta-block plan with 1..3 notifier goroutines, plus one recorder goroutine that commits 2..5 further blocks (new header hashes; 1..3 miniblocks each, 2 in 3 drawn from those already on record = a competing block replaces the one recorded before, the others not yet on record; 1 in 3 blocks is preceded by an epoch change, at most epoch 2) through the same decorated storer while the notifiers run; after recorder and notifiers returned: one empty call, then every transaction lookup must report the block the recorder committed last for its miniblock, GetEpochByHash its epoch, and every notified side its coordinates (witness classes concurrent-rerecord / concurrent-first-record); then the miniblocks still unrecorded are recorded, one empty call, lookups again. Such a case is non-trivial when at least one notified miniblock was recorded again while the notifiers ran.")
 	r.Assume("the committed block of a miniblock is the last RecordBlock call containing it (the caller records blocks in commit order; a block that was replaced may be committed and recorded again, with the same header, epoch and body)",
 		"bounded restatement of 'once the notarizing meta block has been seen': the notarization fields are demanded after one further OnNotarizedBlocks call (possibly empty) following both the notification and the latest record of the miniblock",
 		"every (miniblock, side) has one notarizing meta block; records use epochs inside the active window of the metadata storer; the storers are told about a new epoch before blocks of that epoch are recorded",
 		"sequential cases: interleavings at operation granularity; the asynchronous delivery of OnNotarizedBlocks in production is modelled by the arbitrary order of operations",
-		"concurrent cases: only OnNotarizedBlocks calls overlap each other (the block processors start them with 'go'); RecordBlock calls are made while no notifier is running; the notarization fields are demanded after all notifiers have returned and one further (empty) OnNotarizedBlocks call was made; the pauses injected in the metadata storer change no value")
+		"concurrent-notifier cases: only OnNotarizedBlocks calls overlap each other (the block processors start them with 'go'); RecordBlock calls are made while no notifier is running; the notarization fields are demanded after all notifiers have returned and one further (empty) OnNotarizedBlocks call was made; the pauses injected in the metadata storer change no value",
+		"recorder-racing-notifiers cases: RecordBlock is called by ONE goroutine, block after block (the block processor calls it synchronously after each commit), so the committed block of a miniblock is the last one in the recorder's own order; OnNotarizedBlocks calls overlap it and each other; an epoch change is announced to the storers by the recorder goroutine right before the first block of the new epoch; same quiescence rule")
 	r.MinShapes(40)
 	nCases := r.N(3000, 100000)
 	// cases nCases.. are the concurrent-notifier cases (concurrent.go); the sequential cases keep their indices
